@@ -58,12 +58,7 @@ func (wl *WhopLoc) Continue(s *Scope, args List, depth int) Object {
 		}
 		return wrap.Call(ws, args, depth+1)
 	}
-	// The daemons are not wrappers. A call-next-method or continue-whopper in
-	// one of them must not find this location and run the daemons again.
-	is := s.NewScope()
-	is.Let("~whopper-location~", nil)
-
-	return wl.Method.InnerCall(is, args, depth)
+	return wl.Method.InnerCall(s, args, depth)
 }
 
 // HasNext returns true if there is something to continue with. The location
